@@ -14,10 +14,11 @@ SUP = ['src/engine/engine_support.c', 'src/engine/engine_util_blas.c', 'src/engi
 EXPLANATION = ('Forward: the real mj_EulerSkip runs on a symbolic state whose continuous-time acceleration satisfies the forward-dynamics equation M qacc = qfrc_smooth + qfrc_constraint; its velocity update defines the '
                'discrete-time acceleration a_d = (qvel\' - qvel)/h. Inverse: the real static mj_discreteAcc (the invdiscrete conversion of mj_inverse) runs on a second instance whose d->qacc holds those a_d terms. z3 must show '
                'that it returns the original continuous-time acceleration - so that mj_inverse reproduces the forward forces - for EVERY combination of mjDSBL_EULERDAMP / mjDSBL_DAMPER, damping coefficients, damping polynomials, '
-               'masses, velocities, forces and timestep.')
-BOUNDS = {'quick': {'nv': '1..2 slide joints, diagonal inertia', 'integrator': 'Euler'}, 'thorough': {'nv': '1..3'}}
+               'masses, velocities, forces and timestep. Forward constraint stage: the real static warmstart() with an island structure and a non-identity map_idof2dof - dofs that belong to no island (which no per-island solver writes) must leave it with '
+               'the unconstrained acceleration qacc_smooth, for which inverse dynamics returns zero constraint force; island dofs all start from the same candidate.')
+BOUNDS = {'quick': {'nv': '1..2 slide joints, diagonal inertia', 'integrator': 'Euler', 'warmstart': 'nv 3..4, one island, island maps (2,0,3,1)/2 and (1,2,0)/1, Newton/CG branch'}, 'thorough': {'nv': '1..3', 'warmstart': 'five island maps up to nv = 5'}}
 OUTSIDE = ('agreement of constraint forces (needs a converged forward solve: mj_invConstraint vs the solvers - iterative numerics); implicit / implicitfast discrete conversion (mjd_smooth_vel derivative assembly); coupled inertia '
-           '(the LTDL factorisation is taken as given: its contract belongs to C06); qfrc_inverse assembly in mj_inverseSkip; mjd_effShift (effective-metric shift refresh, stubbed out).')
+           '(the LTDL factorisation is taken as given: its contract belongs to C06); qfrc_inverse assembly in mj_inverseSkip; mjd_effShift (effective-metric shift refresh, stubbed out); in the warmstart units mj_mulJacVec, mj_constraintUpdate and mj_mulM are stubs returning solver-chosen values (the claim is about which acceleration each dof leaves with, not about the costs), PGS branch of warmstart.')
 ASSUMPTIONS = ['real-number semantics', 'M diagonal with positive entries, qLD = M, qLDiagInv = 1/M', 'damping coefficients and polynomial coefficients non-negative', 'mj_sleep returns 0, sleep disabled, mjcb_time not installed',
                'mj_stackAllocInfo returns a fresh block (its own contract is C19)']
 BUDGET = {'quick': 400, 'thorough': 1200}
@@ -45,7 +46,7 @@ def lay():
     return _c['l']
 
 
-def prepare(tier): mod(); so_fwd(); so_inv(); lay()
+def prepare(tier): mod(); so_fwd(); so_inv(); so_ws(); lay()
 
 
 def I(v): return z3.BitVecVal(v, 32)
@@ -129,5 +130,67 @@ def unit_euler_inverse(tier, nv):
     return ck
 
 
+WS_C = STUB_C + r"""
+/* warmstart replay: the three heavy callees are replaced by stubs that hand back values chosen by the solver (cost of each constraint update, M*qacc_warmstart) */
+static double *vf09_cost = 0, *vf09_ma = 0; static int vf09_k = 0, vf09_nv = 0, vf09_nefc = 0;
+void vf09_set(double* cost, double* ma, int nv, int nefc) { vf09_cost = cost; vf09_ma = ma; vf09_k = 0; vf09_nv = nv; vf09_nefc = nefc; }
+void vfstub_mj_mulJacVec(const void* m, void* d, double* res, const double* vec) { for (int i = 0; i < vf09_nefc; i++) res[i] = 0; }
+void vfstub_mj_constraintUpdate(const void* m, void* d, const double* jar, double* cost, int flg) { if (cost) *cost = vf09_cost[vf09_k]; vf09_k++; }
+void vfstub_mj_mulM(const void* m, void* d, double* res, const double* vec) { for (int i = 0; i < vf09_nv; i++) res[i] = vf09_ma[i]; }
+"""
+
+
+def so_ws():
+    if 'sow' not in _c: _c['sow'] = build.native_lib(['src/engine/engine_forward.c'], SUP, name='c09_warmstart', extra_c=WS_C, redirect=['mj_sleep', 'mjd_effShift', 'mj_mulJacVec', 'mj_constraintUpdate', 'mj_mulM'])
+    return _c['sow']
+
+
+def unit_warmstart(tier, perm, nidof):
+    """warmstart() of the forward constraint stage with an island structure: dofs that belong to no island (map_idof2dof[nidof..nv)) are never written by the per-island solvers, so they must
+    leave warmstart with the unconstrained acceleration qacc_smooth (for which inverse dynamics returns zero constraint force); island dofs start from qacc_warmstart or qacc_smooth, all from the same one"""
+    ck = Checker('warmstart_%s_n%d' % (''.join(map(str, perm)), nidof), tier, timeout_s=120, semantics='real')
+    L = lay(); KS = build.enum_values('mjSOL_'); nv = len(perm); nefc = 2
+    w = W.World('real')
+    M, _ = W.full_struct(w, L, 'mjModel_', 'MJMODEL_POINTERS', {'nv': nv}, 'm', default_size=0)
+    M.set('opt.disableflags', 0); M.set('opt.enableflags', 0); M.set('opt.solver', KS['mjSOL_NEWTON'])
+    D, _ = W.full_struct(w, L, 'mjData_', 'MJDATA_POINTERS', {'nv': nv, 'nefc': nefc}, 'd', default_size=0, symbolic=('qacc', 'qacc_warmstart', 'qacc_smooth', 'qfrc_smooth'))
+    D.arr('efc_aref', 'f64', nefc, name='efc_aref'); D.arr('efc_b', 'f64', nefc, name='efc_b'); D.arr('map_idof2dof', 'i32', nv, list(perm))
+    D.set('nefc', nefc); D.set('nisland', 1); D.set('nidof', nidof)
+    ar = w.obj('arena', 8192).zeros(); D.o.put(D.off('arena'), 'ptr', (ar, 0)); D.set('narena', 8192)
+    co, cost = w.arr('vfcost', 'f64', 2); mao, ma = w.arr('vfMa', 'f64', nv)
+    def alloc(ex, st, args, ins):
+        return st.alloc(ex.as_int(args[1]), ('stack', len(st.objs)))
+    noop = lambda ex, st, args, ins: None
+    def s_jac(ex, st, args, ins):
+        for i in range(nefc): ex.store(st, llsym.Ptr(args[2].obj, args[2].off + 8 * i), FpT('double'), z3.RealVal(0))
+    def s_upd(ex, st, args, ins):
+        k = st.aux.get('nupd', 0); st.aux['nupd'] = k + 1
+        if not (isinstance(args[3], llsym.Ptr) and args[3].obj == 0): ex.store(st, args[3], FpT('double'), cost[k])
+    def s_mulm(ex, st, args, ins):
+        for i in range(nv): ex.store(st, llsym.Ptr(args[2].obj, args[2].off + 8 * i), FpT('double'), ma[i])
+    ex = llsym.Exec(mod(), fpmode='real', loop_bound=nv + nefc + 8, stubs={'mj_stackAllocInfo': alloc, 'mj_markStack': noop, 'mj_freeStack': noop, 'mj_mulJacVec': s_jac, 'mj_constraintUpdate': s_upd, 'mj_mulM': s_mulm})
+    st = w.to_state(ex)
+    res = ex.run('@warmstart', [w.P(M.o), w.P(D.o)], st); ck.note_results(ex, res)
+    qw = D.arrays['qacc_warmstart'][3]; qs = D.arrays['qacc_smooth'][3]
+    dec = lambda mdl: {'map_idof2dof': list(perm), 'nidof': nidof, 'qacc_warmstart': [str(W.evalnum(mdl, x)) for x in qw], 'qacc_smooth': [str(W.evalnum(mdl, x)) for x in qs], 'costs': [str(W.evalnum(mdl, x)) for x in cost]}
+    free = sorted(perm[nidof:]); isl = sorted(perm[:nidof]); nret = 0
+    for r in res:
+        if r.kind != 'return': continue
+        nret += 1
+        qa = [ex.load(r.state, w.P(D.arrays['qacc'][0], 8 * i), FpT('double')) for i in range(nv)]
+        seq = [('vf09_set', [('ptr', (co, 0)), ('ptr', (mao, 0)), ('i32', nv), ('i32', nefc)], 'void'), ('warmstart', [('ptr', (M.o, 0)), ('ptr', (D.o, 0))], 'void')]
+        from props import C06
+        rp = C06.seq_replay(w, seq, [('qacc%d' % i, D.arrays['qacc'][0], 8 * i, 'f64', qa[i]) for i in range(nv)], so_fn=so_ws)
+        ck.prove('dofs outside every island (%s) leave warmstart with qacc = qacc_smooth' % free, r.state.pc, z3.And(*[qa[i] == qs[i] for i in free]), site='warmstart:unconstrained-dofs', decode=dec, replay=rp)
+        ck.prove('island dofs (%s) start from qacc_warmstart or from qacc_smooth, all from the same one' % isl, r.state.pc, z3.Or(z3.And(*[qa[i] == qw[i] for i in isl]), z3.And(*[qa[i] == qs[i] for i in isl])),
+                 site='warmstart:island-dofs', decode=dec, replay=rp)
+    if nret < 2: ck.error('expected two returning paths (warmstart kept / replaced), got %d' % nret)
+    ck.memory_obligations(res, decode=dec)
+    return ck
+
+
 def units(tier):
-    return [('euler_discrete_nv%d' % nv, 'unit_euler_inverse', {'nv': nv}) for nv in ([1, 2] if tier == 'quick' else [1, 2, 3])]
+    u = [('euler_discrete_nv%d' % nv, 'unit_euler_inverse', {'nv': nv}) for nv in ([1, 2] if tier == 'quick' else [1, 2, 3])]
+    for perm, nidof in ([((2, 0, 3, 1), 2), ((1, 2, 0), 1)] if tier == 'quick' else [((2, 0, 3, 1), 2), ((1, 2, 0), 1), ((3, 1, 0, 2), 3), ((0, 1, 2), 2), ((4, 2, 0, 3, 1), 2)]):
+        u.append(('warmstart_%s_n%d' % (''.join(map(str, perm)), nidof), 'unit_warmstart', {'perm': perm, 'nidof': nidof}))
+    return u
